@@ -236,11 +236,14 @@ func c05Round(c *Case) {
 			case r < 9:
 				op.kind = "compile"
 			default:
-				op.kind = "compile-ns"
+				op.kind = []string{"compile-ns", "pkg-select"}[g.Intn(2)]
 			}
 			mode := op.kind
 			if strings.HasPrefix(mode, "compile") {
 				mode = "evaluate"
+			}
+			if mode == "pkg-select" {
+				mode = "select"
 			}
 			op.want = soloDigest(c, srcs[op.expr], ctxs[op.ctx], mode, op.k)
 			ops = append(ops, op)
@@ -278,6 +281,22 @@ func c05Round(c *Case) {
 					} else {
 						op.got = opDigest(ce, ctxs[op.ctx], "evaluate", 0, yield)
 					}
+				case "pkg-select":
+					// the deprecated package-level entry point: compiles and selects in one call
+					op.got = func() (s string) {
+						defer func() {
+							if x := recover(); x != nil {
+								pi, _ := classify(x)
+								s = fmt.Sprintf("PANIC(%s %s)", pi.Type, pi.Msg)
+							}
+						}()
+						var sb strings.Builder
+						it := xpath.Select(xdoc.NewNav(ctxs[op.ctx], &xdoc.Rec{Limit: OpLimit, Yield: yield}), srcs[op.expr])
+						for it.MoveNext() {
+							fmt.Fprintf(&sb, "%d ", xdoc.NodeOf(it.Current()).Ord)
+						}
+						return sb.String() + "END"
+					}()
 				case "compile-ns":
 					ce, err := xpath.CompileWithNS(srcs[op.expr], sharedNS)
 					if err != nil {
@@ -300,7 +319,7 @@ func c05Round(c *Case) {
 	for _, op := range all {
 		c.Rep.Evals++
 		k := op.kind
-		if strings.HasPrefix(k, "compile") {
+		if strings.HasPrefix(k, "compile") || k == "pkg-select" {
 			k = "compile"
 		}
 		c.Count("op:" + k)
@@ -337,7 +356,7 @@ func c05Round(c *Case) {
 			if b.call > a.ret {
 				break
 			}
-			if a.expr == b.expr && a.g != b.g && !strings.HasPrefix(a.kind, "compile") && !strings.HasPrefix(b.kind, "compile") {
+			if a.expr == b.expr && a.g != b.g && !strings.HasPrefix(a.kind, "compile") && !strings.HasPrefix(b.kind, "compile") && a.kind != "pkg-select" && b.kind != "pkg-select" {
 				overlap++
 			}
 		}
